@@ -149,61 +149,45 @@ func (sc *StateCache) Get(key, blockHash string) (Value, bool) {
 	}
 
 	bvs := blockValues.(*lru.Cache)
-	vv, ok := bvs.Get(blockHash)
-	if ok {
-		v := vv.(valueNode)
 
-		if !v.deleted {
+	curHash := blockHash
+	var count int
+	for {
+		// Read the link to the previous block before the block's own entry: commit()
+		// publishes the link only after all of the block's entries, so a missing entry
+		// seen after the link means the block did not write the key.
+		prevHash, linked := sc.hashCache.Get(curHash)
+		vv, ok := bvs.Get(curHash)
+		if ok {
+			v := vv.(valueNode)
+			if curHash != blockHash {
+				// remember the answer for the queried block, never overwrite its own entry
+				bvs.ContainsOrAdd(blockHash, v)
+			}
+
+			if v.deleted {
+				logging.Logger.Debug("state cache - is deleted")
+				return nil, false
+			}
+
 			// logging.Logger.Debug("state cache get", zap.String("key", key))
 			return v.data.Clone(), true
 		}
 
-		return nil, false
-	}
-
-	oldBlockHash := blockHash
-
-	var count int
-	for {
-		count++
-		// get previous block hash
-		prevHash, ok := sc.hashCache.Get(blockHash)
-		if !ok {
+		if !linked {
 			// could not find previous hash
-			logging.Logger.Debug("state cache - see gap", zap.String("block", blockHash))
+			logging.Logger.Debug("state cache - see gap", zap.String("block", curHash))
 			return nil, false
 		}
 
-		blockHash = prevHash.(string)
-		vv, ok = bvs.Get(blockHash)
-		if !ok {
-			// stop if the value is not found in previous maxHisDepth rounds
-			if count >= sc.maxHisDepth {
-				logging.Logger.Debug("state cache - reach max depth", zap.String("block", blockHash))
-				return nil, false
-			}
-
-			continue
-		}
-
-		v := vv.(valueNode)
-
-		// // save into current block cache when it's 20 rounds behind
-		// if count >= 20 {
-		// remember the answer in the key's existing block map: replacing the map
-		// would drop the values other blocks wrote for this key
-		bvs.Add(oldBlockHash, v)
-		// logging.Logger.Debug("state cache - migrate from previous block",
-		// 	zap.String("key", key),
-		// 	zap.Int("depth", count))
-		// }
-
-		if v.deleted {
-			logging.Logger.Debug("state cache - is deleted")
+		count++
+		// stop if the value is not found in previous maxHisDepth rounds
+		if count > sc.maxHisDepth {
+			logging.Logger.Debug("state cache - reach max depth", zap.String("block", curHash))
 			return nil, false
 		}
 
-		return v.data.Clone(), true
+		curHash = prevHash.(string)
 	}
 }
 
